@@ -26,6 +26,8 @@ class SimRib:
     def __init__(self):
         self.dests = {}          # net -> {'entries': [...], 'next': int}
         self.llgr = set()
+        self.badtoks = set()     # tokens whose next hop is unreachable (next-hop tracking)
+        self.stale = set()       # sources whose Source carries the GR stale flag
 
     def key(self, e):
         return (1 if e['src'] in self.llgr else 0, -(200 - 10 * e['tok'] - e['src']))
@@ -67,7 +69,8 @@ class SimRib:
                 d['next'] += 1
                 if not any(e['pid'] == pid for e in d['entries']):
                     break
-        e = dict(src=src, tok=tok, pid=pid, filt=filt, nhinv=nhinv)
+        e = dict(src=src, tok=tok, pid=pid, filt=filt, badnh=bool(nhinv),
+                 nhinv=bool(nhinv) or tok in self.badtoks)
         d['entries'].append(e)
         d['entries'].sort(key=self.key)
         new_best = self.best(d)
@@ -123,6 +126,39 @@ class SimRib:
             nb = None if nb is None else nb['pid']
             labels.append(('set', net, ob != nb, True, None, self.paths(d)))
         return labels
+
+    def nhv(self, tok, reachable):
+        """Table::update_nexthop_validity for the next hop of token tok"""
+        labels = []
+        self.badtoks.discard(tok)
+        if not reachable:
+            self.badtoks.add(tok)
+        for net in sorted(self.dests):
+            d = self.dests[net]
+            ob = self.best(d)
+            changed = False
+            for e in d['entries']:
+                if e['tok'] == tok and not e['badnh'] and e['nhinv'] != (not reachable):
+                    e['nhinv'] = not reachable
+                    changed = True
+            if changed:
+                labels.append(('set', net, ob is not self.best(d), True, None, self.paths(d)))
+        return labels
+
+    def restale(self, src):
+        """Table::restale (GR helper): the ranking has no ties here, so nothing moves"""
+        labels = []
+        for net in sorted(self.dests):
+            d = self.dests[net]
+            if not any(e['src'] == src for e in d['entries']):
+                continue
+            self.stale.add(src)
+            if any(e['src'] == src and not e['filt'] for e in d['entries']):
+                labels.append(('set', net, False, True, None, self.paths(d)))
+        return labels
+
+    def drop_stale(self, src):
+        return self.drop(src) if src in self.stale else []
 
     def restale_llgr(self, src):
         has = any(e['src'] == src for d in self.dests.values() for e in d['entries'])
@@ -183,7 +219,38 @@ def translate(c):
         elif t == 'drop': out.append(rib.drop(o[1]))
         elif t == 'llgr': out.append(rib.restale_llgr(o[1]))
         elif t == 'policy': out.append([('policy', o[1])])
+        elif t == 'nhv': out.append(rib.nhv(o[1], bool(o[2])))
+        elif t == 'stale': out.append(rib.restale(o[1]))
+        elif t == 'dropstale': out.append(rib.drop_stale(o[1]))
         else: out.append([(t,)])
+    return out
+
+
+def eor_due(c):
+    """per Flush of the schedule: (End-of-RIB markers due, is a scheduled one among them).
+    One End-of-RIB closes the initial dump of a session (it is buffered behind the dump); one
+    follows a completed route-refresh walk, after everything else of that batch."""
+    out = []
+    chan, reg = [], False
+    due_dump = due_walk = False
+    for o, ls in zip(c['ops'], translate(c)):
+        t = o[0]
+        if t == 'register':
+            chan, reg, due_dump, due_walk = [], True, True, False
+        elif t == 'unregister':
+            chan, reg, due_dump, due_walk = [], False, False, False
+        elif t == 'refresh':
+            if reg: chan.append('w')
+        elif t == 'deliver':
+            if chan and chan.pop(0) == 'w':
+                due_walk = True
+        elif t == 'flush':
+            out.append((int(due_dump) + int(due_walk), due_walk))
+            due_dump = due_walk = False
+        else:
+            for l in ls:
+                n = len(l[2]) if l[0] == 'llgrmark' else int(l[0] == 'set' or (l[0] == 'free' and l[2]))
+                if reg: chan += ['c'] * n
     return out
 
 
@@ -291,7 +358,7 @@ def label_coq(l):
 
 
 OPC = {'ins': 0, 'rem': 1, 'drop': 2, 'llgr': 3, 'deliver': 4, 'flush': 5, 'register': 6, 'refresh': 7,
-       'unregister': 8, 'policy': 9}
+       'unregister': 8, 'policy': 9, 'nhv': 10, 'stale': 11, 'dropstale': 12}
 
 # what the code under verification currently does (see Model/ExportTx.v): how PendingTx
 # names an entry, and whether dump/refresh truncate before the visibility filters
@@ -301,19 +368,26 @@ LIMITED = False
 
 class Prop:
     pid = 'C01'
+    ops_field = 'ops'
     props_file = 'Props/C01.v'
-    required_theorems = ['export_inv_preserved', 'quiescent_view_eq_fresh_outside_known',
-                         'no_lost_withdrawal_outside_known', 'fresh_is_export_rules',
+    required_theorems = ['export_inv_preserved', 'quiescent_view_eq_fresh',
+                         'no_lost_withdrawal', 'fresh_is_export_rules',
                          'no_lost_withdrawal_refuted_by_id_keying',
                          'quiescent_view_eq_fresh_refuted_truncated_dump',
                          'quiescent_view_eq_fresh_refuted_unreported_llgr',
-                         'no_lost_withdrawal_refuted_refresh_race']
+                         'no_lost_withdrawal_refuted_inline_refresh', 'eor_emission',
+                         'pending_last_event_wins', 'flush_order']
     correspondence_name = ('Model/ExportTx.v step vs table::Table + event::export::process_nlri_change + '
                            'peer_tx::PendingTx (harness/daemon/export_c01_hx.rs)')
-    rule = ('cases = (neighbour role/address/send-max/add-path, source peers, export policy, schedule of table '
-            'operations, Deliver, Flush, Register, Refresh); a case is non-trivial when at least one route reaches '
-            'the mirror and at least one withdrawal is drained; distinct = distinct (configuration, sequence of '
-            'drained message sets)')
+    rule = ('cases = (neighbour role/address/send-max/add-path, source peers with roles, export policy, shard index, '
+            'schedule of table operations (insert, remove, peer drop, LLGR marking, next-hop flap, GR stale/purge), '
+            'Deliver, Flush, Register, Unregister, Refresh, PolicyChange); every run enumerates the directed classes '
+            '(class_* tags: window on both sides of send-max for every token assignment; every <=3-event coalescing '
+            'sequence from three initial states; 63/64/65/127/128/129 live destinations with ids freed at word '
+            'boundaries on three shard indices; 5x5 role matrix; replacement kinds at each rank; LLGR marking at each '
+            'rank; refresh/policy/race histories; next-hop flaps; session restarts; peer-down) and adds 1000 seeded '
+            'random schedules; a case is non-trivial when at least one route reaches the mirror and at least one '
+            'withdrawal is drained; distinct = distinct (configuration, sequence of drained message sets)')
     exhaustive = {'quick': False, 'thorough': False}   # thorough adds a complete depth-4 sweep of a 9-letter alphabet
     trusted_base = [
         'the RIB (table/src/lib.rs) is abstracted to its change stream: a RIB label is the NlriChange the table emits; the '
@@ -325,19 +399,20 @@ class Prop:
         'is abstracted to the set of (prefix, path id, payload) a message carries (property C04), and exercised for real by '
         'the session-level harness (PeerCodec::encode_to over a socket, independent try_parse/validate_message)',
         'one shard, one family, one observed neighbour; a lock section / channel send / handle_prefix_update / flush_tx is '
-        'one atomic step (std::sync::Mutex, mpsc and ArcSwap assumed sequentially consistent); socket errors, tokio '
-        'scheduling and policy changes during a session are not modelled',
+        'one atomic step (std::sync::Mutex, mpsc and ArcSwap assumed sequentially consistent); socket errors and tokio '
+        'scheduling are not modelled; a policy change during a session, RTC-triggered VPN re-advertisement and the '
+        'MP / legacy encoding choice are outside the theorems (policy change is exercised by the correspondence)',
         'addpath_tx = (effective_max > 1) is assumed (the FSM/codec agreement is property C16); the model and the '
         'correspondence cover the mismatch configuration, the theorems do not']
     assumptions = ['truthful change stream (Spec/ExportTxSpec.v truthful_run)',
                    'LLGR_STALE marking does not decide acceptance by the export policy (pol_marks_after_accept)',
-                   'route refresh processed with an empty event channel (open finding C01-refresh-race)']
+                   ]
 
     # ---- rendering
     def case_to_val(self, c):
         g = c['cfg']
         cfg = [g['max'], int(g['aptx']), g['role'], g['addr'], int(g['cluster']), int(g['policy']),
-               int(LIMITED), [list(s) for s in g['srcs']]]
+               int(LIMITED), [list(s) for s in g['srcs']], g.get('shard', 0)]
         ops = []
         for o in c['ops']:
             ops.append([OPC[o[0]]] + [int(x) for x in o[1:]])
@@ -345,7 +420,7 @@ class Prop:
 
     def case_to_coq(self, c):
         g = c['cfg']
-        cfg = ('{| g_keying := %s; g_limited := %s; g_max := %s; g_aptx := %s; g_hidden := %s; g_rej := %s |}' % (
+        cfg = ('{| g_keying := %s; g_limited := %s; g_inline := false; g_max := %s; g_aptx := %s; g_hidden := %s; g_rej := %s |}' % (
             KEYING, cbool(LIMITED), cN(g['max']), cbool(g['aptx']),
             clist([cN(x) for x in hidden_sources(g)]), clist([cN(3)] if g['policy'] else [])))
         labels = [label_coq(l) for ls in translate(c) for l in ls]
@@ -373,10 +448,10 @@ class Prop:
     # ---- generation
     def gen_cfg(self, rng, crowded=False):
         nsrc = rng.choice([3, 4]) if crowded else rng.choice([2, 3])
-        role = rng.choice([EBGP, EBGP, IBGP, RSC])
+        role = rng.choice([EBGP, EBGP, EBGP, IBGP, IBGP, RSC, RSC, RRC, CONFED])
         srcs = []
         for k in range(nsrc):
-            srole = rng.choice([EBGP, EBGP, IBGP, RSC] if role != RSC else [RSC, RSC, EBGP])
+            srole = rng.choice([EBGP, EBGP, EBGP, IBGP, IBGP, RSC, RRC, CONFED] if role != RSC else [RSC, RSC, EBGP])
             asn = LOCAL_ASN if srole in (IBGP, RRC) else 65010 + k
             srcs.append((k + 1, srole, asn))
         addr = rng.choice([1, 9, 9])           # 1 = the neighbour is also source 0 (echo)
@@ -410,8 +485,14 @@ class Prop:
                 ops.append(('rem', rng.randrange(nsrc), rng.randrange(nets)))
             elif x < 0.55:
                 ops.append(('drop', rng.randrange(nsrc)))
-            elif x < 0.58:
+            elif x < 0.57:
                 ops.append(('llgr', rng.randrange(nsrc)))
+            elif x < 0.59:
+                ops.append(('nhv', rng.randrange(3), int(rng.random() < 0.5)))
+            elif x < 0.60:
+                k_ = rng.randrange(nsrc)
+                if cfg['srcs'][k_][0] != cfg['addr']:      # not the observed neighbour itself
+                    ops.append((rng.choice(['stale', 'dropstale']), k_))
             elif x < 0.80:
                 ops.append(('deliver',))
             elif x < 0.93:
@@ -429,17 +510,167 @@ class Prop:
                 if rng.random() < 0.8:
                     ops.append(('register',))
         # settle: deliver everything, flush
-        pend = sum(1 for o in ops if o[0] in ('ins', 'rem')) + 4 * sum(1 for o in ops if o[0] in ('drop', 'llgr'))
+        pend = sum(1 for o in ops if o[0] in ('ins', 'rem', 'refresh')) + 4 * sum(1 for o in ops if o[0] in ('drop', 'llgr', 'nhv', 'stale', 'dropstale'))
         if rng.random() < 0.9:
             ops += [('deliver',)] * pend
             if any(o[0] == 'policy' for o in ops):
-                ops.append(('refresh',))          # soft reset out with the channel drained
+                ops += [('refresh',), ('deliver',)]   # soft reset out
             ops.append(('flush',))
         return ops
 
+    # ---- directed classes, enumerated on every run (no randomness)
+    @staticmethod
+    def mkcfg(mx, role=EBGP, addr=9, cluster=False, policy=False, nsrc=3, srcs=None, shard=0):
+        if srcs is None:
+            srcs = [(k + 1, EBGP, 65010 + k) for k in range(nsrc)]
+        return dict(max=mx, aptx=mx > 1, role=role, addr=addr, cluster=cluster, policy=policy,
+                    srcs=srcs, shard=shard)
+
+    def directed(self):
+        import itertools
+        D, F, R = ('deliver',), ('flush',), ('register',)
+        out = []
+        def add(cls, cfg, ops):
+            out.append(dict(cfg=cfg, ops=list(ops), cls=cls))
+        # -- win: the add-path window / the best path, on both sides of send-max: send-max + 1
+        #    candidates of one prefix, every assignment of tokens {0, 2, 3 (policy-rejected)},
+        #    best candidate hidden (the neighbour's own route) or not, by dump and incrementally,
+        #    then removed first-to-last / last-to-first
+        for mx in (1, 2, 3):
+            k = mx + 1
+            for toks in itertools.product((0, 2, 3), repeat=k):
+                for addr in (9, 1):
+                    for pol in (False, True):
+                        cfg = self.mkcfg(mx, addr=addr, policy=pol, nsrc=k)
+                        ins = [('ins', j, 0, toks[j], 0, 0) for j in range(k)]
+                        rem = [('rem', j, 0) for j in range(k)]
+                        ops = ins + [R, F]
+                        for r in rem:
+                            ops += [r, D, F]
+                        add('win_dump', cfg, ops)
+                        ops = [R]
+                        for i_ in ins:
+                            ops += [i_, D]
+                        ops += [F]
+                        for r in reversed(rem):
+                            ops += [r, D]
+                        ops += [F]
+                        add('win_incr', cfg, ops)
+        # -- coal: what PendingTx holds for one key when several events of one prefix are
+        #    delivered between two flushes: every sequence of <= 3 events, from three initial states
+        al = [('ins', 0, 0, 0, 0, 0), ('ins', 0, 0, 1, 0, 0), ('rem', 0, 0), ('ins', 1, 0, 0, 0, 0), ('rem', 1, 0)]
+        for mx in (1, 2):
+            for init in ('absent', 'flushed', 'buffered'):
+                for n in (1, 2, 3):
+                    for seq in itertools.product(al, repeat=n):
+                        cfg = self.mkcfg(mx, nsrc=2)
+                        pre = {'absent': [R, F], 'flushed': [('ins', 0, 0, 2, 0, 0), R, F],
+                               'buffered': [('ins', 0, 0, 2, 0, 0), R]}[init]
+                        add('coal_' + init, cfg, pre + list(seq) + [D] * n + [F])
+        # -- ids: IdAllocator word boundaries (63/64/65, 127/128/129 live destinations), ids freed at
+        #    the first / last / boundary positions and taken again; three shard indices
+        for n in (63, 64, 65, 127, 128, 129):
+            for shard in (0, 1, 255):
+                cfg = self.mkcfg(1 if n % 2 else 2, nsrc=1, shard=shard)
+                ops = [('ins', 0, j, 0, 0, 0) for j in range(n)] + [R, F]
+                freed = sorted({0, 62, 63, 64, n - 2, n - 1} & set(range(n)))
+                for j in freed:
+                    ops += [('rem', 0, j)]
+                for j in range(len(freed) + 1):
+                    ops += [('ins', 0, 200 + j, 1, 0, 0)]
+                ops += [D] * (2 * len(freed) + 1) + [F]
+                add('ids_%d' % n, cfg, ops)
+        # -- roles: every neighbour role x every source role x route reflector or not x echo
+        for nrole in (EBGP, RSC, IBGP, RRC, CONFED):
+            for srole in (EBGP, RSC, IBGP, RRC, CONFED):
+                for cluster in (False, True):
+                    for addr in (9, 1):
+                        for mx in (1, 2):
+                            asn = LOCAL_ASN if srole in (IBGP, RRC) else 65010
+                            cfg = self.mkcfg(mx, role=nrole, addr=addr, cluster=cluster,
+                                             srcs=[(1, srole, asn), (2, EBGP, 65011)])
+                            add('roles', cfg, [('ins', 0, 0, 1, 0, 0), R, F, ('ins', 0, 1, 1, 0, 0), D, F,
+                                               ('ins', 1, 0, 0, 0, 0), D, F, ('rem', 1, 0), D, F])
+        # -- repl: implicit replacement of the path at each rank, by each kind of successor
+        kinds = {'same': (None, 0, 0), 'better': (0, 0, 0), 'rejected': (3, 0, 0), 'filtered': (None, 1, 0),
+                 'nhinv': (None, 0, 1)}
+        for mx in (1, 2, 3):
+            for pos in (0, 1, 2):
+                for kind, (tk, fl_, nh) in kinds.items():
+                    for pol in (False, True):
+                        cfg = self.mkcfg(mx, policy=pol, nsrc=3)
+                        base = [('ins', j, 0, j if j else 1, 0, 0) for j in range(3)]   # toks 1,1,2: ranks 0,1,2
+                        t0 = base[pos][3] if tk is None else tk
+                        ops = base + [R, F, ('ins', pos, 0, t0, fl_, nh), D, F,
+                                      ('ins', pos, 0, base[pos][3], 0, 0), D, F]
+                        add('repl_' + kind, cfg, ops)
+        # -- llgr: a source is marked LLGR-stale with its path at each rank, at several moments
+        for mx in (1, 2, 3):
+            for pos in (0, 1, 2):
+                cfg = self.mkcfg(mx, nsrc=3)
+                base = [('ins', j, 0, j, 0, 0) for j in range(3)]
+                add('llgr', cfg, base + [R, F, ('llgr', pos), D, D, D, F])
+                add('llgr', cfg, base + [R, ('llgr', pos), D, D, D, F])                     # dump still buffered
+                add('llgr', cfg, base + [R, F, ('rem', (pos + 1) % 3, 0), ('llgr', pos), D, D, D, D, F])
+                add('llgr', cfg, base + [R, F, ('llgr', pos), ('llgr', pos), D, D, D, D, D, D, F,
+                                         ('rem', pos, 0), D, F, ('ins', pos, 0, 0, 0, 0), D, F])
+        # -- refresh / policy: before the session, on an empty RIB, twice, around policy changes
+        for mx in (1, 2):
+            cfg = self.mkcfg(mx, nsrc=2, policy=True)
+            i0, i1 = ('ins', 0, 0, 1, 0, 0), ('ins', 1, 0, 3, 0, 0)
+            RF = ('refresh',)
+            add('refresh', cfg, [RF, R, RF, D, F, RF, RF, D, D, F])
+            add('refresh', cfg, [i0, i1, RF, R, F, RF, D, F, RF, RF, F, D, D, F])
+            add('refresh', cfg, [i0, R, F, ('rem', 0, 0), i1, RF, D, D, D, F])       # walk behind queued changes
+            add('refresh', cfg, [i0, R, F, RF, ('rem', 0, 0), i1, D, D, D, F])       # changes behind the walk
+            add('policy', cfg, [i0, i1, R, F, ('policy', 1), RF, D, F, ('policy', 0), RF, D, F])
+            add('policy', cfg, [i0, i1, R, ('policy', 1), RF, D, F, ('policy', 0), RF, D, F])
+            add('policy', cfg, [R, F, ('policy', 1), i0, i1, D, D, RF, D, F, ('rem', 0, 0), D, ('policy', 0),
+                                RF, D, F])
+        # -- race: the history of the former finding C01-refresh-race and its relatives: a refresh while
+        #    the removal of a prefix is queued and its dest_id already names another (hidden or visible) prefix
+        for mx in (1, 2):
+            for hidden in (False, True):
+                srcs = [(1, EBGP, 65010), (2, RSC if hidden else EBGP, 65011)]
+                cfg = self.mkcfg(mx, srcs=srcs)
+                for tail in ([D, D, D, F], [F, D, F, D, F, D, F], [D, F, D, D, F]):
+                    add('race', cfg, [R, ('ins', 0, 2, 0, 0, 0), D, ('rem', 0, 2), ('ins', 1, 1, 2, 0, 0), F,
+                                      ('refresh',)] + tail)
+                    add('race', cfg, [R, ('ins', 0, 2, 0, 0, 0), D, F, ('rem', 0, 2), ('ins', 1, 1, 2, 0, 0),
+                                      ('ins', 0, 2, 1, 0, 0), ('refresh',), D] + tail)
+        # -- nhflap: the next hop of the best / of another candidate goes away and comes back
+        for mx in (1, 2):
+            for t in (0, 1):
+                cfg = self.mkcfg(mx, nsrc=3)
+                base = [('ins', 0, 0, 0, 0, 0), ('ins', 1, 0, 1, 0, 0), ('ins', 2, 1, 1, 0, 0)]
+                add('nhflap', cfg, base + [R, F, ('nhv', t, 0), D, D, F, ('nhv', t, 1), D, D, F])
+                add('nhflap', cfg, base + [R, F, ('nhv', t, 0), ('nhv', t, 1), D, D, D, D, F])
+                add('nhflap', cfg, [R, ('nhv', t, 0)] + base + [D, D, D, F, ('nhv', t, 1), D, D, F])
+                add('nhflap', cfg, base + [R, F, ('nhv', t, 0), D, D, ('rem', 0, 0), D, ('nhv', t, 1), D, D, F])
+        # -- peerdown: Table::drop with the dropped peer holding the best / a lesser / the only path
+        for mx in (1, 2):
+            for who in (0, 1):
+                cfg = self.mkcfg(mx, nsrc=3)
+                base = [('ins', 0, 0, 0, 0, 0), ('ins', 1, 0, 1, 0, 0), ('ins', 2, 0, 2, 0, 0),
+                        ('ins', who, 1, 0, 0, 0), ('ins', 1 - who, 2, 1, 1, 0)]
+                add('peerdown', cfg, base + [R, F, ('drop', who), D, D, D, F])
+                add('peerdown', cfg, base + [R, ('drop', who), D, D, D, F, ('drop', 2), D, D, F])
+        # -- session: start on an empty RIB, restart with things pending, stop, GR stale and purge
+        for mx in (1, 2):
+            cfg = self.mkcfg(mx, nsrc=2)
+            i0, i1 = ('ins', 0, 0, 0, 0, 0), ('ins', 1, 1, 1, 0, 0)
+            add('session', cfg, [R, F, i0, D, F])
+            add('session', cfg, [i0, R, i1, D, R, F])                       # restart with a dump and a reach pending
+            add('session', cfg, [i0, R, F, ('rem', 0, 0), D, R, F])         # restart with a withdrawal pending
+            add('session', cfg, [i0, R, F, ('unregister',), i1, ('rem', 0, 0), D, F, R, F])
+            add('session', cfg, [i0, i1, R, F, ('stale', 0), D, F, ('dropstale', 0), D, F])
+            add('session', cfg, [i0, i1, R, F, ('stale', 0), ('ins', 0, 0, 1, 0, 0), D, D, ('dropstale', 0), D, F])
+            add('session', cfg, [i0, i1, R, F, ('dropstale', 0), ('drop', 1), D, F, ('drop', 1), D, F])
+        return out
+
     def gen_cases(self, rng, tier):
-        cases = []
-        n = 1200 if tier == 'quick' else 6000
+        cases = self.directed()
+        n = 1000 if tier == 'quick' else 6000
         for k in range(n):
             crowded = k % 3 == 2
             cfg = self.gen_cfg(rng, crowded)
@@ -563,16 +794,31 @@ class Prop:
         if obs == [-1]:
             return 'panic in the export path'
         established = False
-        dirty = False
+        dirty, refreshed = False, False
+        due = eor_due(c)
+        nflush = 0
         for k, o in enumerate(obs):
+            if o[0] == 3:
+                want, sched = due[nflush] if nflush < len(due) else (0, False)
+                nflush += 1
+                if len(o[3]) != want:
+                    return 'obs %d: %d End-of-RIB marker(s) drained, %d due (one closes the initial dump, one follows a route-refresh walk)' % (k, len(o[3]), want)
+                if sched and o[3][-1] != len(o[2]):
+                    return 'obs %d: the End-of-RIB of a route refresh is not the last thing of its batch' % k
             if o[0] == 4:
                 established = True
             if o[0] == 7:
                 established = False
             if o[0] == 8:
-                dirty = True        # policy replaced: judged again after the soft reset out
-            if o[0] in (4, 5):
+                dirty, refreshed = True, False   # policy replaced: judged again once a soft reset
+            if o[0] == 5:                        # out issued afterwards has been processed
+                refreshed = True
+            if o[0] == 4:
                 dirty = False
+            if dirty and refreshed and o[0] in (3, 6):
+                chk0 = o[4] if o[0] == 3 else o[2]
+                if 999 not in chk0[-2]:
+                    dirty = False
             if dirty:
                 continue
             if not established:
@@ -592,7 +838,7 @@ class Prop:
                     if (r[0], r[1]) not in fk and r[0] not in chan:
                         return ('obs %d: route (prefix %d, path id %d) is in the neighbour\'s Adj-RIB-In, a fresh session '
                                 'would not be sent it, and no withdrawal is pending or undelivered' % (k, r[0], r[1]))
-                if not chan and (mirror != fresh or not same):
+                if not chan and (mirror != fresh or not same):   # (a queued walk shows as 999)
                     return 'obs %d: quiescent, but the neighbour\'s view differs from a from-scratch dump' % k
         return None
 
@@ -626,11 +872,12 @@ class Prop:
 
     def classify(self, c, obs):
         g = c['cfg']
-        tags = ['max_%d' % g['max'], 'role_%d' % g['role']]
+        tags = ['max_%d' % g['max'], 'role_%d' % g['role'], 'class_' + c.get('cls', 'random')]
+        if g.get('shard', 0): tags.append('shard_%d' % g['shard'])
         n = len(c['ops'])
         tags.append('len_%s' % ('0-10' if n <= 10 else '11-30' if n <= 30 else '31+'))
         kinds = {o[0] for o in c['ops']}
-        for k in ('drop', 'llgr', 'refresh'):
+        for k in ('drop', 'llgr', 'refresh', 'policy', 'nhv', 'stale', 'dropstale', 'unregister'):
             if k in kinds: tags.append('has_' + k)
         if c['ops'].count(('register',)) > 1: tags.append('re_register')
         return tags
